@@ -100,7 +100,18 @@ impl Sess {
     /// After a go: drain briefly, use isready as the reply boundary, count bestmove lines and
     /// collect the info lines that belong to this go.
     pub fn settle(&mut self, g: &mut GoResult, boundary_timeout: Duration) -> bool {
-        self.eng.drain(Duration::from_millis(5));
+        // The search thread is detached and may print a line (or send to a dropped channel) a
+        // little after bestmove. Wait until it has exited (/proc task count back to 1) so that
+        // everything it printed is attributed to this go, then use isready as the boundary: the
+        // pipe is FIFO, so once readyok is read all of that thread's output has been read too.
+        let t_end = Instant::now() + Duration::from_secs(3);
+        while self.eng.thread_count() > 1 && Instant::now() < t_end {
+            self.eng.drain(Duration::from_micros(300));
+        }
+        if self.eng.thread_count() > 1 {
+            self.inconclusive.push("search thread still alive 3 s after bestmove".into());
+        }
+        self.eng.drain(Duration::from_millis(1));
         let ok = self.isready(boundary_timeout);
         let mut n = 0;
         let mut infos = Vec::new();
